@@ -24,45 +24,96 @@ const (
 // encoding of its original bytes.  PostgreSQL's raw parser does not validate the encoding of string constants
 // and quoted identifiers, but Go's protobuf decoder refuses proto3 strings that are not valid UTF-8; with this
 // rewriting the tree of a hostile text can still be decoded, and every string is read back byte-exactly.
-func hexStrings(md protoreflect.MessageDescriptor, b []byte) ([]byte, error) {
-	out := make([]byte, 0, len(b)+len(b)/2)
+// Two passes (sizes of the rewritten sub-messages first, in pre-order) keep it linear for deeply nested trees.
+type hexer struct {
+	sizes []int
+	pos   int
+}
+
+func (h *hexer) measure(md protoreflect.MessageDescriptor, b []byte) (int, error) {
+	total := 0
 	for len(b) > 0 {
 		num, typ, n := protowire.ConsumeTag(b)
 		if n < 0 {
-			return nil, protowire.ParseError(n)
+			return 0, protowire.ParseError(n)
 		}
 		b = b[n:]
-		fd := md.Fields().ByNumber(num)
-		if typ == protowire.BytesType {
-			v, n := protowire.ConsumeBytes(b)
-			if n < 0 {
-				return nil, protowire.ParseError(n)
+		total += n
+		if typ != protowire.BytesType {
+			m := protowire.ConsumeFieldValue(num, typ, b)
+			if m < 0 {
+				return 0, protowire.ParseError(m)
 			}
-			b = b[n:]
-			out = protowire.AppendTag(out, num, typ)
-			switch {
-			case fd != nil && fd.Kind() == protoreflect.StringKind:
-				out = protowire.AppendBytes(out, []byte(hex.EncodeToString(v)))
-			case fd != nil && fd.Kind() == protoreflect.MessageKind:
-				sub, err := hexStrings(fd.Message(), v)
-				if err != nil {
-					return nil, err
-				}
-				out = protowire.AppendBytes(out, sub)
-			default:
-				out = protowire.AppendBytes(out, v)
-			}
+			total += m
+			b = b[m:]
 			continue
 		}
-		n = protowire.ConsumeFieldValue(num, typ, b)
-		if n < 0 {
-			return nil, protowire.ParseError(n)
+		v, m := protowire.ConsumeBytes(b)
+		if m < 0 {
+			return 0, protowire.ParseError(m)
 		}
-		out = protowire.AppendTag(out, num, typ)
-		out = append(out, b[:n]...)
-		b = b[n:]
+		b = b[m:]
+		newLen := len(v)
+		if fd := md.Fields().ByNumber(num); fd != nil {
+			switch fd.Kind() {
+			case protoreflect.StringKind:
+				newLen = 2 * len(v)
+			case protoreflect.MessageKind:
+				idx := len(h.sizes)
+				h.sizes = append(h.sizes, 0)
+				sub, err := h.measure(fd.Message(), v)
+				if err != nil {
+					return 0, err
+				}
+				h.sizes[idx] = sub
+				newLen = sub
+			}
+		}
+		total += protowire.SizeBytes(newLen)
 	}
-	return out, nil
+	return total, nil
+}
+
+func (h *hexer) emit(md protoreflect.MessageDescriptor, b []byte, out []byte) []byte {
+	for len(b) > 0 {
+		num, typ, n := protowire.ConsumeTag(b)
+		b = b[n:]
+		out = protowire.AppendTag(out, num, typ)
+		if typ != protowire.BytesType {
+			m := protowire.ConsumeFieldValue(num, typ, b)
+			out = append(out, b[:m]...)
+			b = b[m:]
+			continue
+		}
+		v, m := protowire.ConsumeBytes(b)
+		b = b[m:]
+		fd := md.Fields().ByNumber(num)
+		switch {
+		case fd != nil && fd.Kind() == protoreflect.StringKind:
+			out = protowire.AppendVarint(out, uint64(2*len(v)))
+			const digits = "0123456789abcdef"
+			for _, c := range v {
+				out = append(out, digits[c>>4], digits[c&15])
+			}
+		case fd != nil && fd.Kind() == protoreflect.MessageKind:
+			size := h.sizes[h.pos]
+			h.pos++
+			out = protowire.AppendVarint(out, uint64(size))
+			out = h.emit(fd.Message(), v, out)
+		default:
+			out = protowire.AppendBytes(out, v)
+		}
+	}
+	return out
+}
+
+func hexStrings(md protoreflect.MessageDescriptor, b []byte) ([]byte, error) {
+	h := &hexer{}
+	total, err := h.measure(md, b)
+	if err != nil {
+		return nil, err
+	}
+	return h.emit(md, b, make([]byte, 0, total)), nil
 }
 
 // parseHexed parses sql with PostgreSQL's parser; all strings of the returned tree are hex-encoded.
@@ -246,186 +297,172 @@ func opName(name []*pg_query.Node) (string, error) {
 	return string(raw), nil
 }
 
-func flatBool(op pg_query.BoolExprType, n *pg_query.Node, acc []string) ([]string, error) {
-	if b := n.GetBoolExpr(); b != nil && b.Boolop == op {
-		var err error
-		for _, a := range b.Args {
-			acc, err = flatBool(op, a, acc)
-			if err != nil {
-				return nil, err
-			}
-		}
-		return acc, nil
-	}
-	c, err := canonNode(n)
-	if err != nil {
-		return nil, err
-	}
-	return append(acc, c), nil
-}
+// canonWriter prints a tree in the format of GoLucene.Sql.canon (one buffer: linear also for very deep trees).
+type canonWriter struct{ sb strings.Builder }
 
 func canonNode(n *pg_query.Node) (string, error) {
+	w := &canonWriter{}
+	if err := w.node(n); err != nil {
+		return "", err
+	}
+	return w.sb.String(), nil
+}
+
+// flat prints the arguments of nested same-operator AND / OR nodes as one space-separated sequence
+func (w *canonWriter) flat(op pg_query.BoolExprType, n *pg_query.Node, first *bool) error {
+	if b := n.GetBoolExpr(); b != nil && b.Boolop == op {
+		for _, a := range b.Args {
+			if err := w.flat(op, a, first); err != nil {
+				return err
+			}
+		}
+		return nil
+	}
+	if !*first {
+		w.sb.WriteByte(' ')
+	}
+	*first = false
+	return w.node(n)
+}
+
+func (w *canonWriter) list(head string, ns ...*pg_query.Node) error {
+	w.sb.WriteString("(" + head)
+	for _, n := range ns {
+		w.sb.WriteByte(' ')
+		if err := w.node(n); err != nil {
+			return err
+		}
+	}
+	w.sb.WriteByte(')')
+	return nil
+}
+
+func (w *canonWriter) node(n *pg_query.Node) error {
 	if n == nil {
-		return "", outside("missing operand")
+		return outside("missing operand")
 	}
 	switch v := n.Node.(type) {
 	case *pg_query.Node_ColumnRef:
 		if len(v.ColumnRef.Fields) != 1 {
-			return "", outside("qualified column reference")
+			return outside("qualified column reference")
 		}
 		s := v.ColumnRef.Fields[0].GetString_()
 		if s == nil {
-			return "", outside("column reference field is not a name")
+			return outside("column reference field is not a name")
 		}
-		return "(col " + s.Sval + ")", nil
+		w.sb.WriteString("(col " + s.Sval + ")")
+		return nil
 	case *pg_query.Node_AConst:
 		c := v.AConst
 		if c.Isnull {
-			return "", outside("NULL constant")
+			return outside("NULL constant")
 		}
 		switch val := c.Val.(type) {
 		case *pg_query.A_Const_Ival:
-			return "(int " + strconv.FormatInt(int64(val.Ival.Ival), 10) + ")", nil
+			w.sb.WriteString("(int " + strconv.FormatInt(int64(val.Ival.Ival), 10) + ")")
 		case *pg_query.A_Const_Fval:
 			raw, err := hex.DecodeString(val.Fval.Fval)
 			if err != nil {
-				return "", err
+				return err
 			}
-			return "(float " + string(raw) + ")", nil
+			w.sb.WriteString("(float " + string(raw) + ")")
 		case *pg_query.A_Const_Sval:
-			return "(str " + val.Sval.Sval + ")", nil
+			w.sb.WriteString("(str " + val.Sval.Sval + ")")
 		default:
-			return "", outside("constant of kind %T", c.Val)
+			return outside("constant of kind %T", c.Val)
 		}
+		return nil
 	case *pg_query.Node_ParamRef:
-		return "(param " + strconv.FormatInt(int64(v.ParamRef.Number), 10) + ")", nil
+		w.sb.WriteString("(param " + strconv.FormatInt(int64(v.ParamRef.Number), 10) + ")")
+		return nil
 	case *pg_query.Node_BoolExpr:
 		be := v.BoolExpr
 		switch be.Boolop {
 		case pg_query.BoolExprType_AND_EXPR, pg_query.BoolExprType_OR_EXPR:
-			items, err := flatBool(be.Boolop, n, nil)
-			if err != nil {
-				return "", err
+			if be.Boolop == pg_query.BoolExprType_AND_EXPR {
+				w.sb.WriteString("(and ")
+			} else {
+				w.sb.WriteString("(or ")
 			}
-			head := "(and "
-			if be.Boolop == pg_query.BoolExprType_OR_EXPR {
-				head = "(or "
+			first := true
+			if err := w.flat(be.Boolop, n, &first); err != nil {
+				return err
 			}
-			return head + strings.Join(items, " ") + ")", nil
+			w.sb.WriteByte(')')
+			return nil
 		case pg_query.BoolExprType_NOT_EXPR:
 			if len(be.Args) != 1 {
-				return "", outside("NOT with %d arguments", len(be.Args))
+				return outside("NOT with %d arguments", len(be.Args))
 			}
-			x, err := canonNode(be.Args[0])
-			if err != nil {
-				return "", err
-			}
-			return "(not " + x + ")", nil
+			return w.list("not", be.Args[0])
 		}
-		return "", outside("BoolExpr %v", be.Boolop)
+		return outside("BoolExpr %v", be.Boolop)
 	case *pg_query.Node_AExpr:
 		e := v.AExpr
 		name, err := opName(e.Name)
 		if err != nil {
-			return "", err
+			return err
 		}
 		switch e.Kind {
 		case pg_query.A_Expr_Kind_AEXPR_OP:
 			switch name {
 			case "=", "<", ">", "<=", ">=", "<>", "~":
 			default:
-				return "", outside("operator %s", name)
+				return outside("operator %s", name)
 			}
 			if e.Lexpr == nil {
-				return "", outside("prefix operator %s", name)
+				return outside("prefix operator %s", name)
 			}
-			l, err := canonNode(e.Lexpr)
-			if err != nil {
-				return "", err
-			}
-			r, err := canonNode(e.Rexpr)
-			if err != nil {
-				return "", err
-			}
-			return "(" + name + " " + l + " " + r + ")", nil
+			return w.list(name, e.Lexpr, e.Rexpr)
 		case pg_query.A_Expr_Kind_AEXPR_IN:
 			if name != "=" {
-				return "", outside("NOT IN")
-			}
-			x, err := canonNode(e.Lexpr)
-			if err != nil {
-				return "", err
+				return outside("NOT IN")
 			}
 			lst := e.Rexpr.GetList()
 			if lst == nil || len(lst.Items) == 0 {
-				return "", outside("IN without a value list")
+				return outside("IN without a value list")
 			}
-			parts := []string{x}
-			for _, it := range lst.Items {
-				c, err := canonNode(it)
-				if err != nil {
-					return "", err
-				}
-				parts = append(parts, c)
-			}
-			return "(in " + strings.Join(parts, " ") + ")", nil
+			return w.list("in", append([]*pg_query.Node{e.Lexpr}, lst.Items...)...)
 		case pg_query.A_Expr_Kind_AEXPR_BETWEEN:
 			if name != "BETWEEN" {
-				return "", outside("between kind %s", name)
-			}
-			x, err := canonNode(e.Lexpr)
-			if err != nil {
-				return "", err
+				return outside("between kind %s", name)
 			}
 			lst := e.Rexpr.GetList()
 			if lst == nil || len(lst.Items) != 2 {
-				return "", outside("BETWEEN without two bounds")
+				return outside("BETWEEN without two bounds")
 			}
-			lo, err := canonNode(lst.Items[0])
-			if err != nil {
-				return "", err
-			}
-			hi, err := canonNode(lst.Items[1])
-			if err != nil {
-				return "", err
-			}
-			return "(between " + x + " " + lo + " " + hi + ")", nil
+			return w.list("between", e.Lexpr, lst.Items[0], lst.Items[1])
 		case pg_query.A_Expr_Kind_AEXPR_SIMILAR:
 			if name != "~" {
-				return "", outside("NOT SIMILAR TO")
-			}
-			x, err := canonNode(e.Lexpr)
-			if err != nil {
-				return "", err
+				return outside("NOT SIMILAR TO")
 			}
 			fc := e.Rexpr.GetFuncCall()
 			if fc == nil {
-				return "", outside("SIMILAR TO without similar_to_escape wrapper")
-			}
-			want := &pg_query.FuncCall{
-				Funcname: []*pg_query.Node{
-					{Node: &pg_query.Node_String_{String_: &pg_query.String{Sval: hx("pg_catalog")}}},
-					{Node: &pg_query.Node_String_{String_: &pg_query.String{Sval: hx("similar_to_escape")}}},
-				},
-				Funcformat: pg_query.CoercionForm_COERCE_EXPLICIT_CALL,
+				return outside("SIMILAR TO without similar_to_escape wrapper")
 			}
 			if len(fc.Args) != 1 {
-				return "", outside("SIMILAR TO ... ESCAPE")
+				return outside("SIMILAR TO ... ESCAPE")
 			}
-			got := proto.Clone(fc).(*pg_query.FuncCall)
-			got.Args = nil
-			got.Location = 0
-			if !proto.Equal(got, want) {
-				return "", outside("SIMILAR TO wrapper is not the plain similar_to_escape call")
+			// everything except the single argument must be the plain pg_catalog.similar_to_escape call
+			got := &pg_query.FuncCall{
+				Funcname: fc.Funcname, AggOrder: fc.AggOrder, AggFilter: fc.AggFilter, Over: fc.Over, AggWithinGroup: fc.AggWithinGroup,
+				AggStar: fc.AggStar, AggDistinct: fc.AggDistinct, FuncVariadic: fc.FuncVariadic, Funcformat: fc.Funcformat,
 			}
-			p, err := canonNode(fc.Args[0])
-			if err != nil {
-				return "", err
+			if !proto.Equal(got, similarWrapper) {
+				return outside("SIMILAR TO wrapper is not the plain similar_to_escape call")
 			}
-			return "(similar " + x + " " + p + ")", nil
+			return w.list("similar", e.Lexpr, fc.Args[0])
 		}
-		return "", outside("expression kind %v", e.Kind)
+		return outside("expression kind %v", e.Kind)
 	default:
-		return "", outside("node %s", strings.TrimPrefix(fmt.Sprintf("%T", n.Node), "*pg_query.Node_"))
+		return outside("node %s", strings.TrimPrefix(fmt.Sprintf("%T", n.Node), "*pg_query.Node_"))
 	}
+}
+
+var similarWrapper = &pg_query.FuncCall{
+	Funcname: []*pg_query.Node{
+		{Node: &pg_query.Node_String_{String_: &pg_query.String{Sval: hx("pg_catalog")}}},
+		{Node: &pg_query.Node_String_{String_: &pg_query.String{Sval: hx("similar_to_escape")}}},
+	},
+	Funcformat: pg_query.CoercionForm_COERCE_EXPLICIT_CALL,
 }
